@@ -180,90 +180,42 @@ theorem failed_is_final (w : World) (h : w.phase = .failed) (as : List Act) :
       have := ih _ h1.1
       exact ⟨this.1, by rw [← h1.2]; exact this.2⟩
 
-/-- **While paused nothing is listed or watched — partial.** From the moment the pause has been noticed
-    (`Quiet`) and for as long as the toggle stays on: no act whatsoever makes the client START a request
-    (`reqCount`), and as long as no attempt already in its retry loop is re-sent (`.retry ∉ as` — the exact
-    guard), the API server receives nothing at all (`attemptCount`).
-
-    Full statement wanted by the property: `attemptCount` unchanged without the guard. False of the code
-    for listings: `paused_retry_witness` (finding C19-F2); true for watch requests: `paused_no_watch_attempt`. Not covered either way: a listing already answered is still
-    yielded while paused (its items are not requests), and between `.pause` and `.notice` (the waiter task
-    has not run yet) requests may still go out. -/
-theorem paused_silent_partial (w : World) (hq : Quiet w) (hp : w.paused = true) (as : List Act)
-    (hres : Act.resume ∉ as) :
-    reqCount (run w as).outs = reqCount w.outs ∧
-    (Act.retry ∉ as → attemptCount (run w as).outs = attemptCount w.outs) := by
+/-- **While paused nothing is listed or watched.** From the moment the pause has been noticed (`Quiet`) and
+    for as long as the toggle stays on, NOTHING is observed, whatever the server, the network and the clocks
+    do: no request is started, no attempt of an earlier request is re-sent, no listed item, no watch event,
+    no bookmark is yielded — the record of observations does not change at all. A listing in progress
+    (even asleep between its retries) and a pending watch request are cancelled at the notice, an open
+    response is closed (kopf d8da165 for the watch request, 64c8f5e for the listing; before them the
+    attempts went on and a late listing was yielded while paused: C19-F2, now a regression case).
+    Not covered: between `.pause` and `.notice` (the waiter task has not run yet) requests may still go out. -/
+theorem paused_silent (pre : List Act) (hq : Quiet (run init pre)) (hp : (run init pre).paused = true)
+    (as : List Act) (hres : Act.resume ∉ as) :
+    (run (run init pre) as).outs = (run init pre).outs := by
+  have hc : ConnFresh (run init pre) := connFresh_run connFresh_init pre
+  generalize run init pre = w at hq hp hc
   induction as generalizing w with
-  | nil => exact ⟨rfl, fun _ => rfl⟩
+  | nil => rfl
   | cons a as ih =>
       have ha : a ≠ .resume := fun h => hres (h ▸ List.mem_cons_self)
       have hrest : Act.resume ∉ as := fun h => hres (List.mem_cons_of_mem _ h)
-      obtain ⟨hq', hc⟩ := quiet_step_paused hq hp a
-      obtain ⟨h1, h2⟩ := ih (step w a) hq' (paused_step hp ha) hrest
-      refine ⟨by show reqCount (run (step w a) as).outs = _; rw [h1, hc], ?_⟩
-      intro hnr
-      have har : a ≠ .retry := fun h => hnr (h ▸ List.mem_cons_self)
-      show attemptCount (run (step w a) as).outs = _
-      rw [h2 (fun h => hnr (List.mem_cons_of_mem _ h)), attemptCount_eq, attemptCount_eq, hc, retryCount_step w har]
+      show (run (step w a) as).outs = _
+      rw [ih hrest (step w a) (quiet_step_paused hq hp a).1 (paused_step hp ha) (connFresh_step hc a),
+        quiet_paused_step_outs hq hc hp a]
 
-/-- **The guard is needed (C19-F2, listings).** The operator is paused and the pause has been noticed
-    while a LISTING is outstanding (`fetching.list_objs` has no stopper); its attempt fails with a retryable
-    error and `api.request` re-sends it: the API server receives a list request while paused. -/
-theorem paused_retry_witness :
-    let w := run init [.wake, .pause, .notice]
-    Quiet w ∧ w.paused = true ∧ attemptCount (run w [.retry]).outs = attemptCount w.outs + 1 ∧
-    (run w [.retry]).outs.head? = some .retryList := by
+/-- the former witnesses of C19-F2 (a listing, resp. a watch request, in its retry loop when the pause is
+    noticed; a listing answered during the pause), now regression examples: nothing is re-sent or yielded -/
+example :
+    let w := run init [.wake, .retry, .pause, .notice]
+    Quiet w ∧ w.paused = true ∧ w.phase = .backoff ∧
+    (run w [.retry, .respond, .change 1 .added true, .wake, .retry, .respond]).outs = w.outs := by
   refine ⟨Or.inl (by decide), by decide, by decide, by decide⟩
 
-/-- **… but nothing is WATCHED while paused, retries included.** From the moment the pause has been
-    noticed and for as long as the toggle stays on, no watch request is sent or re-sent, whatever happens:
-    a watch request that is pending (even asleep between its retries) when the pause is noticed is
-    cancelled on the spot (kopf d8da165 repaired the stopper callback of `api.stream`; before it the
-    callback failed on its own assert and the attempts went on — the watch half of C19-F2). -/
-theorem paused_no_watch_attempt (pre : List Act) (hq : Quiet (run init pre)) (hp : (run init pre).paused = true)
-    (as : List Act) (hres : Act.resume ∉ as) :
-    watchAttemptCount (run (run init pre) as).outs = watchAttemptCount (run init pre).outs := by
-  have hc : ConnFresh (run init pre) := connFresh_run connFresh_init pre
-  generalize run init pre = w at hq hp hc
-  induction as generalizing w with
-  | nil => rfl
-  | cons a as ih =>
-      have ha : a ≠ .resume := fun h => hres (h ▸ List.mem_cons_self)
-      have hrest : Act.resume ∉ as := fun h => hres (List.mem_cons_of_mem _ h)
-      show watchAttemptCount (run (step w a) as).outs = _
-      rw [ih hrest (step w a) (quiet_step_paused hq hp a).1 (paused_step hp ha) (connFresh_step hc a),
-        watchAttempt_step_quiet hq hc a]
-
-/-- **… and no watch event reaches the consumer while paused.** From the moment the pause has been
-    noticed and for as long as the toggle stays on, no watch event and no bookmark is yielded, whatever
-    the server sends (the response is closed / the request cancelled at the notice). What CAN still be
-    yielded are the items of a listing that was outstanding at the notice (`fetching.list_objs` has no
-    stopper — the same root as C19-F2). -/
-theorem paused_no_event (pre : List Act) (hq : Quiet (run init pre)) (hp : (run init pre).paused = true)
-    (as : List Act) (hres : Act.resume ∉ as) :
-    eventCount (run (run init pre) as).outs = eventCount (run init pre).outs := by
-  have hc : ConnFresh (run init pre) := connFresh_run connFresh_init pre
-  generalize run init pre = w at hq hp hc
-  induction as generalizing w with
-  | nil => rfl
-  | cons a as ih =>
-      have ha : a ≠ .resume := fun h => hres (h ▸ List.mem_cons_self)
-      have hrest : Act.resume ∉ as := fun h => hres (List.mem_cons_of_mem _ h)
-      show eventCount (run (step w a) as).outs = _
-      rw [ih hrest (step w a) (quiet_step_paused hq hp a).1 (paused_step hp ha) (connFresh_step hc a),
-        event_step_quiet hq hc a]
-
-/-- a listing outstanding when the pause is noticed is still answered and yielded while paused -/
-example : (run init [.change 1 .added true, .wake, .pause, .notice, .respond]).outs
-    = [.listed 1, .item 1 1, .reqList] := by decide
-
-/-- a watch request asleep in its retry loop when the pause is noticed: cancelled, nothing re-sent -/
 example :
     let w := run init [.wake, .respond, .drop .eof, .retry, .pause, .notice]
-    w.phase = .backoff ∧ Quiet w ∧ (run w [.retry, .wake, .retry]).outs = w.outs := by
+    w.phase = .backoff ∧ Quiet w ∧ (run w [.retry, .wake, .retry, .respond, .deliver]).outs = w.outs := by
   refine ⟨by decide, Or.inr (Or.inl (by decide)), by decide⟩
 
-/-- The hypothesis of `paused_silent_partial` is met as soon as the pause is noticed, in every phase. -/
+/-- The hypothesis of `paused_silent` is met as soon as the pause is noticed, in every phase. -/
 theorem pause_noticed_is_quiet (w : World) (hp : w.paused = true) : Quiet (step w .notice) := by
   unfold Quiet
   cases hph : w.phase <;> simp [step, hp, hph, toBackoff]
